@@ -3,6 +3,8 @@ package main
 import (
 	"fmt"
 	"go/ast"
+	"go/token"
+	"strconv"
 	"strings"
 )
 
@@ -27,6 +29,7 @@ type ty struct {
 	opt   bool // may be nil in Go and is represented as Option
 	st    *structInfo
 	parts []*ty // kTuple
+	arr   int   // > 0: a Go array `[arr]T` (a list of exactly that many elements; its zero value holds arr zero elements)
 }
 
 var (
@@ -136,6 +139,9 @@ func (t *ty) zero() string {
 	case kFloat:
 		return "Num.zero"
 	case kSlice, kND1:
+		if t.arr > 0 && t.elem != nil && t.elem.zero() != "" {
+			return fmt.Sprintf("(List.replicate %d (%s : %s))", t.arr, t.elem.zero(), t.elem.lean())
+		}
 		return "[]"
 	}
 	return ""
@@ -244,7 +250,13 @@ func (f *fn) typeOf(t ast.Expr, p *pkg, file *ast.File) *ty {
 			c.opt = true // inner slices may be nil
 			el = &c
 		}
-		return &ty{k: kSlice, elem: el}
+		n := 0
+		if bl, ok := t.Len.(*ast.BasicLit); ok && bl.Kind == token.INT {
+			if v, err := strconv.Atoi(bl.Value); err == nil && v > 0 && v <= 64 {
+				n = v
+			}
+		}
+		return &ty{k: kSlice, elem: el, arr: n}
 	case *ast.SelectorExpr:
 		if x, ok := t.X.(*ast.Ident); ok {
 			if imports(file)[x.Name] == f.w.module+"/data" && t.Sel.Name == "ND1Float64" {
